@@ -1132,7 +1132,12 @@ class Network:
                 await self._event_bus.emit(
                     PeerInitializedEvent(connection, requested=True))
 
-                connection_future.set_result(connection)
+                # The request could have timed out or have been cancelled in
+                # the meantime, nobody is waiting for the connection anymore
+                if connection_future.done():
+                    await connection.disconnect(CloseReason.REQUESTED)
+                else:
+                    connection_future.set_result(connection)
 
         else:
             logger.warning(
